@@ -165,7 +165,7 @@ def run(ctx):
             and any(i["dur"] == "short" and i["at"] == s["tstart"] for i in s["items"])
             and (set(s["kinds"]) - {i["srv"] for i in s["items"]}) & {"http", "https", "grpc"}]
     mute = [s for s in small if any(i["dur"] == "mute" for i in s["items"])]
-    chosen = (stratified(small, ctx.pick(14, 220), rnd) + stratified(big, ctx.pick(3, 40), rnd) + stratified(idle, ctx.pick(3, 18), rnd)
+    chosen = (stratified(small, ctx.pick(12, 220), rnd) + stratified(big, ctx.pick(3, 40), rnd) + stratified(idle, ctx.pick(3, 18), rnd)
               + stratified(mute, ctx.pick(2, 12), rnd) + stratified(twins, ctx.pick(3, 24), rnd))
     # (d) work that ends just within the wait, on every kind; (e) connections that never get as far as a
     # request (silent, or stuck in the middle of the TLS ClientHello), on every kind -- fewest scenarios
@@ -191,7 +191,7 @@ def run(ctx):
         ctx.inconclusive("the generator produced no edge / stalled-connection work for %s" % sorted(edge_missing | stall_missing))
         return
     small_edge = [s for s in read(sink4) if s["items"]]
-    chosen += edge_cover + stall_cover + stratified(small_edge, ctx.pick(2, 40), rnd)
+    chosen += edge_cover + stall_cover + stratified(small_edge, ctx.pick(1, 40), rnd)
     if not idle or not mute or not twins:
         ctx.inconclusive("the generator produced no idle-listener / half-closed-tunnel / shared-port scenario")
         return
